@@ -1033,8 +1033,20 @@ def b14(rep, w):
             org = org or origins(f)
             pl = op_place(t['args'][2])
             roots = org.get(pl['l'], ()) if pl is not None else ()
+            def per_function_table(q):
+                # a look-up in a table that is a field of the Compiler record of the function being compiled (it dies with that function)
+                if q[0][0] != 'call' or strip_generics(q[0][2]).rsplit('::', 1)[-1] not in ('get', 'index', 'get_mut', 'entry', 'or_insert_with', 'or_insert'):
+                    return False
+                a0 = f.blocks[q[0][1]]['t'].get('args') or []
+                pl0 = op_place(a0[0]) if a0 else None
+                if pl0 is None:
+                    return False
+                for q0 in org.get(pl0['l'], ()):
+                    if q0[0][0] == 'call' and q0[0][2].rsplit('::', 1)[-1] in ('compiler', 'compiler_mut'):
+                        return True
+                return False
             bad = sorted({(q[0][2].rsplit('::', 1)[-1] if q[0][0] == 'call' else str(q[0])) for q in roots
-                          if not ((q[0][0] == 'call' and q[0][2].rsplit('::', 1)[-1] in OK) or q[0][0] == 'arg')})
+                          if not ((q[0][0] == 'call' and q[0][2].rsplit('::', 1)[-1] in OK) or q[0][0] == 'arg' or per_function_table(q))})
             r.check(bool(roots) and not bad, '%s / constant operand #%d comes from make_constant / identifier_constant' % (f.path.replace(P, ''), k),
                     '%s emits a constant operand whose index comes from %s, not from adding the constant to the chunk being compiled: the slot may belong to another function\'s '
                     'constant table (the instruction then loads whatever that slot holds here)' % (f.path, bad), f.loc(t.get('sp')))
